@@ -24,9 +24,11 @@ claim("C12",
       "Machine-checked theorems, for ALL strings, about the regex literally translated from the source on every run "
       "(Gen/Regexes.v) and the translated token format: extract_reference s = Some n iff s = '[ref: ' ++ 1..10 ASCII "
       "digits ++ ']' ++ rest with value n <= 4294967295; the inserted token satisfies the rule and the documented "
-      "unanchored regex captures dec n. Tie to the code: translators + bounded-exhaustive correspondence of "
+      "unanchored regex captures dec n; on EVERY message the documented regex (match at offset 0, group 1 parsed as u32) "
+      "and extract_reference agree in both directions, and the reported match is leftmost. Tie to the code: translators + bounded-exhaustive correspondence of "
       "extract_reference and find() (hook library) against the extracted model; the rule itself is also evaluated "
-      "directly on the implementation as the violation search.",
+      "directly on the implementation as the violation search; the documented regex is run by the regex crate itself "
+      "and by the model on every campaign string (docregex).",
       "regex crate leftmost-first semantics and str::parse::<u32> are modelled (Model/Regex.v, Text.parse_u32) and tied "
       "by correspondence, not proved against Rust." + COMMON_NOTE,
       "Coq proof over translated regex + differential correspondence (bounded exhaustive)",
